@@ -259,7 +259,7 @@ def nontrivial(payload, md):
         return md.get('n', '0') not in ('0',) and payload.split(' ')[3].count(',') >= 1
     return md.get('m0', '-') != '-' and 'm1' in md and md.get('s0') != md.get('s1')
 
-RULE = ('per protocol (usbpro, robe, opc): streams of 1-30 items drawn from valid frames with payload sizes at '
+RULE = ('per protocol (usbpro, robe, opc, acn; acn: blocks of 0-6 PDUs with lengths 2..1000 and 4095/4096/5000/70000, 2- and 3-byte length fields, bad identifier, block length off by -1/+1/+5, length smaller than its field, truncation, noise): streams of 1-30 items drawn from valid frames with payload sizes at '
         '0/1/limit-1/limit, wrong end byte / header CRC / data CRC, announced length limit+1..65535, truncated '
         'frames, off-by-one length fields, noise rich in start/end bytes; every stream replayed under 6 '
         'partitions (1-byte, whole, random cuts, a cut at offsets -2..+7 of every item, one single cut near a '
@@ -273,23 +273,28 @@ ASSUMPTIONS = ['the kernel delivers the bytes of a pipe/socket in order',
                'operator new does not fail (OPC buffer growth)']
 TRUSTED = ['modelled rather than verified: ConnectedDescriptor::Receive (POSIX branch), '
            'BaseUsbProWidget::ReceiveMessage/DescriptorReady, BaseRobeWidget::ReceiveMessage/DescriptorReady, '
-           'OPCServer::SocketReady/RxState::CheckSize; the receive buffers are modelled as the list of bytes '
+           'OPCServer::SocketReady/RxState::CheckSize, IncomingStreamTransport::Receive/ReadRequiredData/'
+           'IncreaseBufferSize/Handle*/Enter* (libs/acn/TCPTransport.cpp, with a recording inflator); the receive buffers are modelled as the list of bytes '
            'stored so far plus an explicit capacity check on every store; SOM/EOM/size limits regenerated '
            'into Gen.v',
-           'reference framers ref_usb/ref_robe/ref_opc are hand-written from the wire formats (their '
+           'reference framers ref_usb/ref_robe/ref_opc/ref_acn are hand-written from the wire formats (their '
            'resynchronisation rules are stated in Model.v)',
            'read() interposed with ld --wrap in the harness only']
 LEVEL_TEXT = ('Coq theorems over executable models of the code: ConnectedDescriptor::Receive (for every script of '
               'read() results: no store outside the buffer, count = sum of successful reads, buffer prefix = their '
-              'concatenation) and the Enttec USB Pro framer (for every byte stream and every partition into reads the '
-              'delivered (label, payload) list equals a reference framer written from the wire format; no store outside '
-              'the 600-byte buffer; the read loop terminates). PARTIAL: for the Robe framer and the (fixed) OPC server the '
-              'models and reference framers exist and are compared with the C++ and with each other on every generated '
-              'stream under 6 partitions, but their chunk-freeness is not proved in Coq; the ACN TCP transport and the RPC '
-              'channel (C09) are not covered here.')
+              'concatenation) and three of the five framers named by the property - Enttec USB Pro, Robe (both '
+              'checksums) and the Open Pixel Control server: for every byte stream and EVERY partition into reads the '
+              'delivered message list equals a reference framer written from the wire format, no store outside the '
+              'receive buffer, the read loop terminates (c10_{usbpro,robe,opc}_chunk_free / _bounds). PARTIAL: the ACN '
+              'TCP transport (IncomingStreamTransport: preamble, block length, 2/3-byte PDU lengths, buffer growth) is '
+              'modelled with a reference framer and compared with the C++ and with the reference framer on every '
+              'generated stream under 6 partitions, but c10_acn_chunk_free / c10_acn_bounds are NOT proved in Coq. The '
+              'RPC channel framing is not part of this check: its theorem is c09_dispatch in props/C09.')
 LEVEL_NOTE = ('Trusted: Coq kernel, extraction (ExtrOcamlBasic), OCaml/C++ glue, the ld --wrap=read interposer, generator '
               'coverage of the correspondence (model = code is validated by differential testing on pipes/socket pairs '
               'under ASan/UBSan, not proved); assumes in-order byte delivery and level-triggered readiness; receive '
-              'buffers are modelled as the list of bytes stored so far with an explicit capacity check per store.')
+              'buffers are modelled as the list of bytes stored so far with an explicit capacity check per store; the '
+              'ACN inflator is a recording stub that consumes every PDU whole; the ACN packet identifier and '
+              'INITIAL_SIZE=500 are literals in the model (not regenerated).')
 TECHNIQUE = 'Coq proof on hand-written executable model + extracted-model/implementation differential correspondence'
 DESIGN_REF = 'DESIGN.md §4 C10'
